@@ -695,6 +695,20 @@ def replay(path):
     import json
     d = json.load(open(path))
     r = d["replay"]
+    if "seconds" in r and "source" in r:
+        import time
+        binp = common.native_build("default")
+        t = time.time()
+        try:
+            subprocess.run([binp, "-"], input=r["source"].encode(), capture_output=True, timeout=25)
+            dt = time.time() - t
+        except subprocess.TimeoutExpired:
+            dt = 25.0
+        print(f"formatting the recorded {len(r['source'])}-byte program took {dt:.1f}s")
+        if dt > 8.0:
+            print(f"VIOLATION property=C07 replay={path}")
+            return 1
+        return 0
     if "source" in r and "flags" in r:
         binp = common.native_build("full")
         rc, pan, err = run_src(binp, r["source"], r["flags"])
